@@ -59,7 +59,7 @@ def score_check(ctx):
             # 16 single-worker TLC processes, 3 outer tuples (104,976 classes) each: a seeded 1/9 of all classes
             from concurrent.futures import ThreadPoolExecutor
             with ThreadPoolExecutor(max_workers=16) as ex:
-                list(ex.map(lambda j: ctx.tlc('MC_Score40', CFG40C % (ctx.seed * 16 + j), name='MC_Score40_classes_%d' % j, workers=1, timeout=7000), range(16)))
+                list(ex.map(lambda j: ctx.tlc('MC_Score40', CFG40C % (ctx.seed * 16 + j), name='MC_Score40_classes_%d' % j, workers=1, timeout=7000, heap='3g'), range(16)))
     if pid in ('C03', 'C10', 'C11', 'C12'):
         r = tlc3x(ctx)
         if pid in ('C03', 'C11', 'C12'):
